@@ -74,3 +74,30 @@ def shrink_bytes(data: bytes, still_fails, budget=300):
                 break
             n = min(n * 2, len(cur))
     return cur
+
+
+_FUZZ_BUILT = {}
+
+
+def fuzz_cases(o, ctx, target, tier, seed):
+    """case lines from the coverage- and behaviour-guided generator (tools/fuzzgen.py): the committed corpus of that target plus
+    whatever libFuzzer keeps when it is run on /repo's CURRENT tree for a few seconds.  Never decides anything: the lines go through
+    the same diff and oracles as all others.  A target that cannot be built or run contributes nothing (noted in the evidence)."""
+    import fuzzgen
+    if "ok" not in _FUZZ_BUILT:
+        try:
+            _FUZZ_BUILT["ok"], _FUZZ_BUILT["msg"] = fuzzgen.build()
+        except Exception as e:  # noqa
+            _FUZZ_BUILT["ok"], _FUZZ_BUILT["msg"] = False, repr(e)[:200]
+    notes = o.extra.setdefault("fuzz_guided_generation", {})
+    if not _FUZZ_BUILT["ok"]:
+        notes[target] = "not run: " + _FUZZ_BUILT["msg"]
+        return []
+    secs = 6 if tier != "thorough" else 90
+    try:
+        base, fresh, note = fuzzgen.lines(target, secs, seed)
+    except Exception as e:  # noqa
+        notes[target] = "not run: " + repr(e)[:200]
+        return []
+    notes[target] = note
+    return base + fresh
